@@ -217,6 +217,30 @@ class WrappersDriver:
             "throttle": [(throttle, async_f), (throttle(limit=2, period=1.0), async_f)],
             "timeout": [(timeout(1.0), async_f)],
         }[d]
+        import functools
+
+        def stacked(f):
+            @functools.wraps(f)
+            def inner(*a, **k):
+                return f(*a, **k)
+            return inner
+
+        async def _araw(x):
+            """the docstring"""
+            return x
+
+        @functools.wraps(_araw)
+        async def async_stacked(x):
+            return await _araw(x)
+
+        # the decorated object may itself be a wrapper that already carries __wrapped__ (stacked helpers)
+        extra = []
+        for deco, f in variants:
+            import asyncio as _a
+            extra.append((deco, async_stacked if _a.iscoroutinefunction(f) else stacked(f)))
+        variants = variants + extra
+        for v in extra:
+            v[1].__name__ = v[1].__wrapped__.__name__
         name = doc = wrapped = True
         for deco, f in variants:
             g = deco(f)
